@@ -127,6 +127,8 @@ pub struct Content {
     pub n_header_comment_before_use: usize,
     /// a `macro` declaration item occurs
     pub has_macro_decl: bool,
+    /// distinct pairs of adjacent code terminal kinds
+    pub kind_pairs: std::collections::HashSet<(SyntaxKind, SyntaxKind)>,
     /// comments that stand in the middle of a construct: the code token before them is not one of
     /// `, ; { } ( [` (and they are not at the start of the file)
     pub n_mid_construct_comments: usize,
@@ -150,6 +152,8 @@ struct Walker<'a> {
     has_macro_decl: bool,
     n_mid_construct_comments: usize,
     last_code_token: Option<String>,
+    last_code_kind: Option<SyntaxKind>,
+    kind_pairs: std::collections::HashSet<(SyntaxKind, SyntaxKind)>,
 }
 
 /// The prefix (slashes, exclamation marks) and the whitespace-separated words of one comment line.
@@ -304,7 +308,10 @@ impl<'a> Walker<'a> {
                 if self.dedupe_uses {
                     leaves.dedup();
                 }
-                self.out.push(Item::Uses(leaves));
+                // a run that imports nothing (`use a::{};`) may be dropped by merging
+                if !leaves.is_empty() {
+                    self.out.push(Item::Uses(leaves));
+                }
                 i = j;
             } else if self.reorder && is_mod_decl(&kids[i]) {
                 let mut mods = vec![];
@@ -422,6 +429,10 @@ impl<'a> Walker<'a> {
             }
             if !kids[1].get_text(db).is_empty() {
                 self.last_code_token = Some(kids[1].get_text(db).to_string());
+                if let Some(p) = self.last_code_kind {
+                    self.kind_pairs.insert((p, kind));
+                }
+                self.last_code_kind = Some(kind);
             }
             self.in_trailing = !kids[1].get_text(db).is_empty();
             self.trivia(&kids[2]);
@@ -522,6 +533,8 @@ pub fn content<'a>(db: &'a SimpleParserDatabase, root: &SyntaxNode<'a>, cfg: Cfg
         has_macro_decl: false,
         n_mid_construct_comments: 0,
         last_code_token: None,
+        last_code_kind: None,
+        kind_pairs: Default::default(),
     };
     w.node(root);
     let (full, d) = drop_token_tree_trailing_commas(w.out);
@@ -537,6 +550,7 @@ pub fn content<'a>(db: &'a SimpleParserDatabase, root: &SyntaxNode<'a>, cfg: Cfg
         n_header_comment_before_use: w.n_header_comment_before_use,
         has_macro_decl: w.has_macro_decl,
         n_mid_construct_comments: w.n_mid_construct_comments,
+        kind_pairs: w.kind_pairs,
     }
 }
 
@@ -577,6 +591,8 @@ pub struct Verdict {
     pub fails: Vec<(&'static str, String, String)>,
     pub out: String,
     pub stats: Value,
+    /// distinct pairs of adjacent code terminal kinds of the input
+    pub kind_pairs: Vec<String>,
 }
 
 /// Decides C11 for one (text, config) on the real implementation.
@@ -587,7 +603,7 @@ pub fn check(text: &str, cfg: Cfg) -> Verdict {
 /// The oracle with the formatter's answer replaced by `tamper(answer)` (self-test of the
 /// oracle's sensitivity: every tampering must be reported, and not as a known finding).
 pub fn check_tampered(text: &str, cfg: Cfg, tamper: Option<&dyn Fn(&str) -> Option<String>>) -> Verdict {
-    let mut v = Verdict { parsed: false, fails: vec![], out: String::new(), stats: json!({}) };
+    let mut v = Verdict { parsed: false, fails: vec![], out: String::new(), stats: json!({}), kind_pairs: vec![] };
     let r = catch(|| {
         let db = SimpleParserDatabase::default();
         let db = &db;
@@ -596,9 +612,9 @@ pub fn check_tampered(text: &str, cfg: Cfg, tamper: Option<&dyn Fn(&str) -> Opti
             return None;
         }
         let c_in = content(db, &root, cfg);
-        Some((c_in.full, c_in.n_tokens, c_in.n_comments, c_in.n_comment_words, c_in.n_opt_commas, c_in.n_use_items, c_in.n_trailing_comments, c_in.comment_texts, c_in.n_header_comment_before_use, c_in.has_macro_decl, c_in.n_mid_construct_comments))
+        Some((c_in.full, c_in.n_tokens, c_in.n_comments, c_in.n_comment_words, c_in.n_opt_commas, c_in.n_use_items, c_in.n_trailing_comments, c_in.comment_texts, c_in.n_header_comment_before_use, c_in.has_macro_decl, c_in.n_mid_construct_comments, c_in.kind_pairs))
     });
-    let (in_items, n_tokens, n_comments, n_cw, n_oc, n_use, n_trail_in, cm_in, hdr_in, has_macro, n_mid_in) = match r {
+    let (in_items, n_tokens, n_comments, n_cw, n_oc, n_use, n_trail_in, cm_in, hdr_in, has_macro, n_mid_in, pairs_in) = match r {
         Ok(Some(x)) => x,
         Ok(None) => return v,
         Err(m) => {
@@ -608,6 +624,7 @@ pub fn check_tampered(text: &str, cfg: Cfg, tamper: Option<&dyn Fn(&str) -> Opti
         }
     };
     v.parsed = true;
+    v.kind_pairs = pairs_in.iter().map(|(a, b)| format!("{a:?}>{b:?}")).collect();
     // f(t)
     let f1 = catch(|| {
         let db = SimpleParserDatabase::default();
